@@ -10,6 +10,7 @@ Sub-checks
               with the report (files on disk, decoded bytes)
 """
 import contextlib
+import json
 import io
 import re
 from fractions import Fraction
@@ -157,10 +158,11 @@ def run_hyp(ctx, n):
 # ---------------------------------------------------------------------------
 _LINE = re.compile(
     r"^Scale (?P<key>.*?), (?P<shard>Unsharded|Sharded: \d+bits), chunk size "
-    r"\[(?P<cs>[\d, ]+)\]: (?P<chunks>[\d,]+) chunks, (?P<dirs>[\d,]+) "
+    r"\[(?P<cs>[\d, ]+)\]: (?P<chunks>-?[\d,]+) chunks, (?P<dirs>-?[\d,]+) "
     r"directories, raw uncompressed size (?P<size>.*)B$")
 _TOTAL = re.compile(
-    r"^Total: (?P<chunks>[\d,]+) chunks, (?P<dirs>[\d,]+) directories, raw "
+    r"^Total: (?P<chunks>-?[\d,]+) chunks, (?P<dirs>-?[\d,]+) directories, "
+    r"raw "
     r"uncompressed size (?P<size>.*)B$")
 
 ITEMSIZE = {"uint8": 1, "uint16": 2, "uint32": 4, "uint64": 8, "float32": 4}
@@ -202,11 +204,35 @@ def info_strategy(max_size=10 ** 6):
                      st.integers(1, 4), scales)
 
 
+def numpy_sizes(info):
+    """The same info with its volume sizes held as the narrowest
+    NumPy integer type that fits them (an info assembled in code from image
+    header fields rather than parsed from JSON) - chosen from the info
+    itself, so that replay sees the same representation."""
+    from vlib.jsonable import case_hash
+    rep = case_hash(info) % 4
+    if rep == 0:
+        return info, "python_int"
+    out = json.loads(json.dumps(info))
+    for sc in out["scales"]:
+        vals = list(sc["size"])
+        types = ["int16", "int32", "int64"] if rep == 1 else \
+            ["int32", "int64"] if rep == 2 else ["int64"]
+        t = next(t for t in types if max(vals) <= np.iinfo(t).max)
+        conv = np.dtype(t).type
+        # (the sizes only: chunk sizes are echoed in the report, and NumPy
+        # scalars inside a printed list are spelled "np.int16(64)")
+        sc["size"] = [conv(v) for v in sc["size"]]
+    return out, "numpy_sizes"
+
+
 def check_stats(ctx, info):
     from neuroglancer_scripts.scripts import scale_stats
     buf = io.StringIO()
+    given, rep = numpy_sizes(info)
+    ctx.count("sizes_as." + rep)
     with contextlib.redirect_stdout(buf):
-        scale_stats.show_scales_info(info)
+        scale_stats.show_scales_info(given)
     lines = buf.getvalue().splitlines()
     exp = []
     for sc in info["scales"]:
